@@ -324,6 +324,8 @@ func rUniverse() []string {
 		return []string{"a", "b", "a/a", "a/b", "b/a", "b/b"}
 	case 3: // a directory with two children (for partial-failure faults)
 		return []string{"a", "a/a", "a/b"}
+	case 4: // names that share a string prefix without being related (a vs ab)
+		return []string{"a", "ab", "ab/a"}
 	}
 	return []string{"a", "b", "a/a"}
 }
@@ -334,6 +336,8 @@ func rCandidates() []string {
 		return []string{".", "a", "b", "c", "a/a", "a/b", "a/c", "b/a", "c/c", "a/a/a", "a/a/c"}
 	case 3:
 		return []string{".", "a", "c", "a/a", "a/b", "a/c"}
+	case 4:
+		return []string{".", "a", "ab", "abc", "a/a", "a/ab", "ab/a", "ab/c"}
 	}
 	return []string{".", "a", "b", "c", "a/a", "a/c", "c/c", "a/a/a", "a/a/c", "b/c"}
 }
